@@ -6,7 +6,7 @@ from vlib import fixtures
 from vlib.run import Broken
 import re
 
-from rules import linear, own, taint, sync, refusal
+from rules import linear, own, taint, sync, refusal, release
 from vlib import witness
 from vlib.mir import Fn
 
@@ -19,7 +19,7 @@ SIZE_NAMES = ('size', 'align', 'count', 'len', 'alignment', 'capacity', 'n', 'ad
 
 def run(ctx):
     fx = ctx.facts("default")
-    fixtures.run(ctx, ['linear', 'taint', 'commit', 'relink', 'viewcursor', 'locksplit', 'region', 'rangedep'])
+    fixtures.run(ctx, ['linear', 'taint', 'commit', 'relink', 'viewcursor', 'locksplit', 'region', 'rangedep', 'release'])
     # (1) request sizes are untrusted integers for the allocator entry points
     cl = taint.new_closure(fx)
     n = 0
@@ -99,6 +99,9 @@ def run(ctx):
     # (5) who may drop an arena
     linear.arena(ctx, fx, FILES)
     ctx.floor("R-ARENA.arena_types", 5)
+    # a freed block is not written any more (the next owner's contents, the free-list link in its first bytes)
+    release.run(ctx, fx, [f for f in fx.files() if f.startswith('src/memory/')])
+    ctx.floor('R-RELEASE.releases', 4)
     return dict(
         level_note="decides five structural clauses of C07; disjointness and content retention themselves, alignment "
                    "arithmetic and the double-free detection logic (generation / canary comparisons) are value-level and NOT decided",
